@@ -454,8 +454,117 @@ def rule_cs0013(ctx):
     ctx.check(R, "SignalAssignment::is_quadratic/body", t in ("{self.is_quadratic}", "{self.degree.is_quadratic()}") or "is_quadratic" in t, t, site(SA, isq))
 
 
+def eval_array_arms(ctx, R):
+    """The arms of `Expression::propagate_degrees` that read the environment (Variable, Access, Update, Phi), by
+    evaluation: the node is built with a meta that records what is written, an environment that answers `degree(v)`
+    from a table, and operands whose own degree is given.  For every combination in which the degree of every variable
+    read is known: the upper bound written is at least the largest upper bound among the variables read and the
+    operands (an element update keeps what the array already held - whatever the SSA version of the array is), and
+    nothing is written when an operand's degree is unknown.  The worlds in which the *array* of an update has no
+    degree are left to the operand-discipline rule (known finding)."""
+    import passeval
+    from passeval import Panic, Sink
+
+    try:
+        w = passeval.PassWorld([DM, IR, EI], EI)
+    except Exception as ex:
+        ctx.note("expression_impl.rs could not be loaded for evaluation (%s)" % ex)
+        return False
+    w.lenient_opaque = True
+    key = None
+    for k_ in w.methods:
+        if k_ == ("Expression", "propagate_degrees"):
+            key = k_
+    if key is None:
+        ctx.note("Expression::propagate_degrees not found for evaluation")
+        return False
+    fn = w.methods[key][0]
+    SAMPLE = [(C, C), (C, N), (L, L), (Q, Q), (N, N)]
+    n_worlds = 0
+    problems = {}
+
+    def run_node(variant, fields, table):
+        written = []
+        know = ("O", "degree-knowledge", (("set_degree", ("PY", lambda r_: (written.append(r_), True)[1])),))
+        meta = ("O", "meta", (("degree_knowledge_mut", know),))
+
+        def degree_of(v):
+            for k2, val in table:
+                if k2 is v:
+                    return val
+            return NONE
+
+        envv = ("O", "env", (("degree", ("PY", degree_of)),))
+        node = passeval.V("Expression", variant, meta=meta, **fields)
+        w.call_fn(fn, [node, envv])
+        return written
+
+    def var(tag, version):
+        return ("O", "var:" + tag, (("version", NONE if version is None else S("Some", version)), ("name", tag)))
+
+    def operand(r_):
+        d_ = NONE if r_ is None else S("Some", rng(*r_))
+        return ("O", "operand", (("propagate_degrees", False), ("degree", d_)))
+
+    def upper(written):
+        return di(written[-1][2][1]) if written and isinstance(written[-1], tuple) and written[-1][0] == "S" and written[-1][1] == "DegreeRange" else None
+
+    def note(variant, what):
+        problems.setdefault(variant, what)
+
+    try:
+        for version in (None, 0, 2):
+            for a in SAMPLE:
+                v = var("x", version)
+                # Variable / Access: the degree of the variable read
+                for variant, fields in (("Variable", {"name": v}), ("Access", {"var": v, "access": Sink()})):
+                    wr = run_node(variant, fields, [(v, S("Some", rng(*a)))])
+                    n_worlds += 1
+                    u = upper(wr)
+                    if u is None or u < a[1]:
+                        note(variant, "variable of degree [%s,%s]: upper bound written %s" % (DEG[a[0]], DEG[a[1]], DEG[u] if u is not None else "none"))
+                    wr = run_node(variant, fields, [])
+                    n_worlds += 1
+                    if wr:
+                        note(variant, "a degree is written although the variable read has none")
+                for b in SAMPLE + [None]:
+                    wr = run_node("Update", {"var": v, "access": Sink(), "rhe": operand(b)}, [(v, S("Some", rng(*a)))])
+                    n_worlds += 1
+                    u = upper(wr)
+                    if b is None:
+                        if wr:
+                            note("Update", "array of degree [%s,%s] (version %s), assigned value of unknown degree: a degree is written" % (DEG[a[0]], DEG[a[1]], version))
+                    elif u is None or u < max(a[1], b[1]):
+                        note("Update", "array of degree [%s,%s] (SSA version %s), element assigned a value of degree [%s,%s]: upper bound written %s, the array still holds elements of degree %s" % (DEG[a[0]], DEG[a[1]], version, DEG[b[0]], DEG[b[1]], DEG[u] if u is not None else "none", DEG[max(a[1], b[1])]))
+        for combo in itertools.product(SAMPLE + [None], repeat=2):
+            vs = [var("a%d" % i, i) for i in range(2)]
+            table = [(v_, S("Some", rng(*r_))) for v_, r_ in zip(vs, combo) if r_ is not None]
+            args = Sink()
+            args.items = list(vs)
+            wr = run_node("Phi", {"args": args}, table)
+            n_worlds += 1
+            if any(r_ is None for r_ in combo):
+                if wr:
+                    note("Phi", "a degree is written although an argument has none")
+            else:
+                u = upper(wr)
+                need = max(r_[1] for r_ in combo)
+                if u is None or u < need:
+                    note("Phi", "arguments of degree %s: upper bound written %s" % ([DEG[r_[1]] for r_ in combo], DEG[u] if u is not None else "none"))
+    except Unsupported as ex:
+        ctx.note("Expression::propagate_degrees is outside the evaluator's subset (%s): the operand-discipline obligations apply" % ex)
+        return False
+    except Panic as ex:
+        ctx.bad(R, "Expression::propagate_degrees/evaluated/no-panic", "panics: %s" % ex, EI)
+        return True
+    for variant in ("Variable", "Access", "Update", "Phi"):
+        ctx.check(R, "Expression::propagate_degrees/%s/evaluated/keeps-every-known-degree" % variant, variant not in problems, problems.get(variant) or "%d worlds: the upper bound written covers every variable read and every operand; nothing is written when one of them is unknown" % n_worlds, EI)
+    return True
+
+
 def run(ctx):
     rule_tables(ctx)
     opdisc.rule_degrees(ctx, "C07.2")
+    eval_array_arms(ctx, "C07.2")
     rule_env(ctx)
     rule_cs0013(ctx)
